@@ -56,9 +56,11 @@ def run(prop, tier, replay=None):
     v.cov["distinct_nontrivial"] = len(seen)
     v.cov["traces_validated_against_impl"] = 1
     v.cov["events_validated"] = len(events)
-    v.cov["rule"] = ("TLC enumerates every string of length <= %d over {0,1,9,'.','_','+','x',' '}, amounts m*10^k for short mantissas "
+    v.cov["rule"] = ("TLC enumerates every string of length <= %d over {0,1,9,'.','_','+','x',' ',LF}, amounts m*10^k for short mantissas "
                      "and boundary exponents, and boundary pairs; the driver adds length/value classes around 2^256 and 18 fraction "
-                     "digits, foreign characters at every position, and seeded random 256-bit amounts/pairs/presentations. "
+                     "digits, integer parts of up to 378 characters through leading zeros, foreign characters (line ends included) at "
+                     "every position, and seeded random 256-bit amounts/pairs/presentations. The printed form must have exactly 18 "
+                     "fraction digits. "
                      "A case is one real call (Display, Parse(Display), Parse, checked_add, checked_sub); distinct = distinct (call, argument)."
                      % (5 if thorough else 4))
     v.cov["samples"] = [{k: e[k] for k in e if k in ("ev", "text", "d", "a", "b", "res", "src")} for e in
